@@ -171,12 +171,24 @@ def install(seed, max_steps=400000, max_virtual=600.0):
 
     # job ids are drawn from a process-global counter: restart it so that a scenario does not depend on what ran before it
     import itertools as _it
-    _set(mpire.async_result, 'job_counter', _it.count(start=1))
+    _set(mpire.async_result, 'job_counter', _it.count(start=first_job_id()))
     _saved.append((IT, 'next', orig_next))
     _saved.append((IT, '__next__', IT.__dict__['__next__']))
     IT.next = next_
     IT.__next__ = next_
     return S
+
+
+_FIRST = []
+
+
+def first_job_id():
+    """the id the library gives to the first job of a process (read once from the untouched module)"""
+    if not _FIRST:
+        import mpire.async_result as ar
+        import copy as _copy
+        _FIRST.append(next(_copy.copy(ar.job_counter)))
+    return _FIRST[0]
 
 
 def tag_comms(c):
